@@ -18,6 +18,9 @@ History ops:
   ["H", name]                 SHOW m<name>, then QUERY <q> (the oracle's reference), back to back
   ["HF", name, bytes]         SHOW m<name> whose response writer fails with BrokenPipe after <bytes> bytes (!failwrite): the
                               client hung up; frames appended so far stay in the store, the catalog entry is not rewritten
+  ["HA", name, point, hit]    FLUSH, then SHOW m<name> with the process aborting at the hit-th visit of step point <point>
+                              (show_delta_appended | show_before_catalog; hooks/C14-show-steps.diff — without the hook the SHOW
+                              completes), restart on the same directories
   ["B", n]                    n STOREs (context c00) without waiting in between, then quiescence
 q = {"ctx": int|None, "where": [op, n]|None, "since": off|None, "tf": "C"|"P", "ret": None|["k"]|["k","pt"], "limit": n|None}
 """
@@ -122,6 +125,7 @@ def show_ops(ops):
         elif o[0] == "W": out.append(f"park(fw_published);S x{o[3]};REMEMBER[{show_q(o[2])}] AS m{o[1]};release")
         elif o[0] == "H": out.append(f"SHOW m{o[1]}")
         elif o[0] == "HF": out.append(f"failwrite({o[2]});SHOW m{o[1]}")
+        elif o[0] == "HA": out.append(f"F;abort@{o[2]}#{o[3]};SHOW m{o[1]};restart")
         elif o[0] == "B": out.append(f"S x{o[1]}")
         else: out.append(o[0])
     return " ".join(out)
@@ -354,13 +358,26 @@ class Hist:
             self.obs.append("R error " + out[:120])
             self.shows.append({"kind": "remember-error", "name": name, "msg": out[:200]})
 
-    def do_show(self, name, shards, fail=None):
+    def do_show(self, name, shards, fail=None, abort=None):
         before = self.frames(name)
         if fail is not None:
             self.eng.cmd(f"!failwrite {fail}")
-        raw = self.eng.cmd(f"SHOW m{name}")
+        if abort is not None:
+            self.eng.cmd(f"!arm_abort {abort[0]} {abort[1]}")
+        crashed = False
+        try:
+            raw = self.eng.cmd(f"SHOW m{name}")
+        except engine.Crashed:
+            # the process died inside SHOW (armed step point): restart on the same directories
+            crashed = True
+            raw = {"out": "", "error": "crashed"}
+            self.eng.stop()
+            self.eng.start()
+            self.pin()
+        if abort is not None and not crashed:
+            self.eng.cmd("!arm_abort none 0")
         r = engine.parse_stream(raw)
-        failed = fail is not None and (raw.get("error") is not None or r["status"] != 200 or r.get("count") is None)
+        failed = crashed or (fail is not None and (raw.get("error") is not None or r["status"] != 200 or r.get("count") is None))
         if failed:
             # the client saw an error (or nothing); what matters is what the engine kept
             after = self.settled_frames(name)
@@ -372,7 +389,7 @@ class Hist:
                 return
             mark = after[-1][0] if after else "0.0"
             self.obs.append(f"F new={self.frames_str(new)} mark={mark} cat={self.catalog_mark(name)}")
-            self.shows.append({"kind": "show-failed", "name": name, "appended": len(new), "bytes": fail,
+            self.shows.append({"kind": "show-failed", "name": name, "appended": len(new), "bytes": fail, "crashed": crashed,
                                "delivered": len(raw.get("out", ""))})
             return
         after = self.frames(name)
@@ -454,6 +471,11 @@ class Hist:
                     shards = self.emit_layout()
                     self.faulted[op[1]] = True
                     self.do_show(op[1], shards, fail=op[2])
+                elif t == "HA":
+                    self.eng.cmd("FLUSH"); self.quiesce()     # a process crash must not be able to lose memtable events
+                    shards = self.emit_layout()
+                    self.faulted[op[1]] = True
+                    self.do_show(op[1], shards, abort=(op[2], op[3]))
                 elif t == "B":
                     for i in range(op[1]):
                         self.do_store(0, i % 4, 0, wait=False)
@@ -838,6 +860,21 @@ def cases(rng, tier):
     for i in range(2 if quick else 40):
         cfg = rng.choice(CFGS)
         out.append(mk_case("show_fault_payload", cfg, gen_fault_history(rng, cfg, tf="P")))
+    for i in range(6 if quick else 150):
+        # the process dies between SHOW's persistence steps (effective once hooks/C14-show-steps.diff is applied)
+        cfg = rng.choice(CFGS)
+        q = gen_query(rng)
+        q["since"] = None
+        ops = [("S", rng.below(6), rng.below(4), 0) for _ in range(rng.range(1, 4))] + [("R", 1, q)]
+        if rng.chance(1, 2):
+            ops.append(("H", 1))
+        for _ in range(rng.range(1, 2)):
+            ops.append(("N", len(ops)))
+            ops += [("S", rng.below(6), rng.below(4), 0) for _ in range(rng.range(2, 5))]
+            ops.append(("HA", 1, rng.choice(["show_delta_appended", "show_delta_appended", "show_before_catalog"]), rng.range(1, 2)))
+            ops += [("S", rng.below(6), rng.below(4), 0) for _ in range(rng.range(0, 2))]
+            ops += [("H", 1), ("H", 1)]
+        out.append(mk_case("show_crash", cfg, ops))
     for i in range(1 if quick else 25):
         # a response above the writer's 64 KiB buffer: the failure comes mid-stream and aborts the delta task
         cfg = {"shards": 1, "fill_factor": 50, "event_per_zone": 50}
